@@ -176,6 +176,15 @@ let run (cmd : string) (a : v) : v =
       L [ vlist (fun b -> L [ vnat (match b with it :: _ -> it.i_key | [] -> O);
                               vlist (fun (((t, o), n)) -> L [vnat t; vnat o; vnat n]) (offsets b O) ]) em;
           vlist (fun (k, ob) -> L [vnat k; (match ob with None -> S "none" | Some b -> vlist (fun it -> vnat it.i_tid) b)]) st ]
+  | "proj_ok", L [L members; L logs] ->
+      let members = List.map (fun g -> List.map (fun r -> nat_of_int (geti r)) (getl g)) members in
+      let inst = function L [I g; I k; I n; I d; I r] ->
+          { igrp = nat_of_int g; ikind = nat_of_int k; inumel = nat_of_int n; idtype = nat_of_int d; iroot = nat_of_int r }
+        | _ -> failwith "inst" in
+      let logs = List.map (fun l -> List.map inst (getl l)) logs in
+      (match global_order members logs with
+       | None -> I 0
+       | Some l -> L [I 1; vnat (length l)])
   | _ -> failwith ("unknown command or bad argument: " ^ cmd)
 
 let () =
